@@ -463,6 +463,7 @@ func (a *Activation) step(instr ssa.Instruction, st *State) *State {
 		st.private = append(st.private, privRef{ref, prefixFor(T)})
 		// zero-initialise
 		t.storeAt(st, prefixFor(T), "", ref, "", T, t.zeroValue(T))
+		a.zeroAtomicBools(st, prefixFor(T), ref, T, 0)
 		a.env[in] = Val{K: KRef, T: in.Type(), S: ref}
 	case *ssa.FieldAddr:
 		x := a.val(in.X, st)
@@ -562,6 +563,7 @@ func (a *Activation) step(instr ssa.Instruction, st *State) *State {
 		t.set(st, "$chancap", sApp("store", t.lookup(st, "$chancap"), ref, sz.S))
 		t.set(st, "$tok", sApp("store", t.lookup(st, "$tok"), ref, "0"))
 		t.set(st, "$sends", sApp("store", t.lookup(st, "$sends"), ref, "0"))
+		t.set(st, "$chanclosed", sApp("store", t.lookup(st, "$chanclosed"), ref, tFalse))
 		a.env[in] = Val{K: KRef, T: in.Type(), S: ref}
 	case *ssa.MakeMap:
 		ref := a.allocRef(st, "map", "makemap")
@@ -698,6 +700,31 @@ func (a *Activation) storeThrough(st *State, addr Val, T types.Type, v Val, pos 
 	a.afterWrite(st, prefix, ref)
 }
 
+// zeroAtomicBools: the boolean view of sync/atomic.Bool cells starts out false.
+func (a *Activation) zeroAtomicBools(st *State, prefix, ref string, T types.Type, depth int) {
+	t := a.t
+	if depth > 4 {
+		return
+	}
+	if typeKey(T) == "sync/atomic.Bool" {
+		arr := prefix + ".v#b"
+		t.regArray(arr, "(Array Int Bool)")
+		t.set(st, arr, sApp("store", t.lookup(st, arr), ref, tFalse))
+		return
+	}
+	s := structOf(T)
+	if s == nil {
+		return
+	}
+	for i := 0; i < s.NumFields(); i++ {
+		f := s.Field(i)
+		if f.Name() == "_" || kindOfType(f.Type()) != KStruct {
+			continue
+		}
+		a.zeroAtomicBools(st, prefix+"."+f.Name(), ref, f.Type(), depth+1)
+	}
+}
+
 // frozenCheck: configuration fields declared frozen may only be written on objects that are still private
 // (being constructed); anything else invalidates the frame assumption used across callbacks.
 func (a *Activation) frozenCheck(st *State, prefix, ref string, pos token.Pos) {
@@ -727,6 +754,12 @@ func (a *Activation) loadThrough(st *State, addr Val, T types.Type, pos token.Po
 	a.guardCheck(st, prefix, ref, pos, false)
 	v := t.load(st, prefix, ref, idx, T)
 	a.wfRef(st, v)
+	for _, m := range t.eng.con.Monitors {
+		if m.PtrMtx && prefix == m.Pkg+"."+m.Type+"."+m.Mutex {
+			v.Owner = ref
+			v.OwnerT = m.Pkg + "." + m.Type
+		}
+	}
 	return v
 }
 
